@@ -12,7 +12,7 @@ the hash *search* and models what the library does with them.
 The Spec oracle below works on the names only (C05's Python oracle for the
 pattern language, applied level by level); it knows nothing of hashes.
 """
-import os
+import os, re
 from props import C05 as P5
 
 HARNESS = ["h_C04.cpp"]
@@ -25,7 +25,12 @@ RULE = ("port trees: 1..24 names per table over {a b c} + digits (lengths 1..3, 
         "perfect hash when the library finds one), sub-trees 'name/' and 'name#N/' nested up to 4 levels, "
         "default handler on about a quarter of the tables (hashed and unhashed ones; it must run exactly when no port of a reached table takes the message, with and without location buffer); in about 6 % of the tables names with bytes 0x7f / 0x80 / 0xe9 / 0xff; in about a third of the tables names of several address "
         "components, with and without '#N', as leaves and as sub-trees at every depth (a#2/b#3/, a#2/k#2:i, x/y/, u/v/w/; "
-        "a '#'-free table holding one takes the linear scan too); "
+        "a '#'-free table holding one takes the linear scan too); in about 30 % of the tables half of the names carry alternative "
+        "groups {a,b,..} (2..3 non-empty alternatives of letters, none a prefix of another: C05's side conditions alts_prefix_free / "
+        "enum_delimited) at the start, in the middle, at the end of a component or as a whole component, before or after a '#N', in "
+        "one-component and multi-component names, as leaves and as sub-trees ({on,off}/, {ab,cd}x::i, p{q,r}#2:i, a#2{x,y}/, a#2/{x,y}b/; "
+        "also in otherwise literal tables - the kind the pinned code hashed); their addresses spell one of the alternatives (86 %), the "
+        "group's own text, a shortened / extended alternative, or two alternatives; "
         "addresses derived from a randomly chosen port path: exact, one character appended / removed / changed, "
         "index N-1 / N / N+1 / leading zeros / 10..20 digits (a valid index zero-padded, valid index + j*2^32, + j*2^64, 2^31 / 2^32 / 2^63 / 2^64 boundaries; 22 % of the enumerated components), '/' dropped or doubled, leading '/' dropped, a byte 0x7f / 0x80 / 0xe9 / 0xff changed in / inserted / appended / as a whole component (8 %), plus random short "
         "addresses; type strings equal to an alternative, a proper extension of one (the text leaves that verdict open: the two runs must then agree), with the first tag changed, with the last tag dropped, or unrelated. "
@@ -38,11 +43,15 @@ TRUSTED = ["harness/h_C04.cpp: Ports subclass filling the public `ports` vector 
            "library's own rRecurCb / rRecursCb (port-sugar.h) behind the recording wrapper, a proxy `ports` object forwards "
            "their dispatch call to the run-time built sub-table and translates the pointer they computed back to the "
            "harness's object numbering; hooks Ports::verif_tables (add-only, RTOSC_VERIF)",
-           "tools/props/C04.py: the Python Spec oracle (C05's pattern oracle applied level by level)",
+           "tools/props/C04.py: the Python Spec oracle (C05's pattern oracle - literal text, #N, alternatives - applied level by level)",
            "the perfect-hash search (find_pos, find_assoc) is not modelled: its output is an input of the model; "
            "what is modelled and proved is everything the library does with it"]
-ASSUMPTIONS = ["port names of the documented form literal text / #N / trailing '/' / ':types' (any bytes but NUL and ':' in "
-               "names and addresses - no 7-bit restriction since fix 7baa3a8); where the type string is a proper extension of an "
+ASSUMPTIONS = ["port names of the documented form literal text / #N / {a,b,..} / trailing '/' / ':types' (any bytes but NUL and ':' in "
+               "names and addresses - no 7-bit restriction since fix 7baa3a8); alternative groups inside C05's side conditions (no alternative a "
+               "prefix of another, none empty or starting with a digit behind '#N' - outside them C05 has known findings) and without '/'; "
+               "an enumerated SUB-TREE name has no alternative group in front of its first '#' (p{q,r}#2/ is generated as a leaf only: "
+               "rBOILS_BEGIN looks for the index as many characters into the message as the name has in front of its '#' - proposed finding "
+               "index-behind-alternatives, notes/C04.md); where the type string is a proper extension of an "
                "alternative the text gives no verdict on that port (counted in dist as no-verdict:...): the oracle then only "
                "requires both runs and all tables to agree; location buffer large enough (ports.cpp: 'buffer_size is not properly handled yet'); "
                "callbacks of sub-tree ports follow the recursion contract SNIP + dispatch of rRecur*Cb"]
@@ -91,7 +100,7 @@ def walk(t):
             yield from walk(s)
 
 def parse_name(name):
-    """Port::name -> C05 pattern AST (literal text, #N, trailing '/', ':types')"""
+    """Port::name -> C05 pattern AST (literal text, #N, {a,b,..}, trailing '/', ':types')"""
     i = name.find(b":")
     path, types = (name, None) if i < 0 else (name[:i], name[i + 1:].split(b":"))
     sub = path.endswith(b"/")
@@ -107,6 +116,12 @@ def parse_name(name):
                 e += 1
             segs.append(("E", path[j + 1:e]))
             j = e
+        elif path[j:j + 1] == b"{" and b"}" in path[j:]:      # {a,b,...}: one of the alternatives
+            if lit:
+                segs.append(("L", lit)); lit = b""
+            e = path.index(b"}", j)
+            segs.append(("A", path[j + 1:e].split(b",")))
+            j = e + 1
         else:
             lit += path[j:j + 1]; j += 1
     if lit:
@@ -129,6 +144,17 @@ def first_number(m):
     while e < len(m) and P5.isdig(m[e]):
         e += 1
     return int(m[j:e]) if e > j else 0
+
+def index_at_hash(ast, m):
+    """the index an enumerated sub-tree port hands down: the number the address spells at the
+    name's first '#N' (what precedes it is spelled as the name says: literal text, one of the
+    alternatives)"""
+    segs = ast[0]
+    k = next((i for i, (kk, _) in enumerate(segs) if kk == "E"), None)
+    if k is None:
+        return 0
+    ends = P5.spell_ends(segs[:k], m)
+    return first_number(m[min(ends):]) if ends else 0
 
 def expected(t, addr, ty, chosen=None):
     """What a root dispatch must do, in order, derived from the names alone:
@@ -170,7 +196,7 @@ def expected(t, addr, ty, chosen=None):
             if sub:
                 # the level below is addressed by what follows the matched name; the
                 # index an enumerated parent hands down is the one spelled at its first '#'
-                n = first_number(m[name.index(b"#"):]) if b"#" in name else 0
+                n = index_at_hash(ast, m)
                 level(sub, off + end, child_obj(obj, t.tid, i, n))
         if not hit and t.dflt:
             out.append(("D", t.tid, off, obj, b"/" + full[off0:off]))
@@ -313,6 +339,18 @@ def spec_check(case, impl):
     return None
 
 def classify(case, impl, failure):
+    """index-behind-alternatives: an enumerated SUB-TREE port whose name has an alternative group in
+    front of its first '#' ("p{q,r}#2/"): rBOILS_BEGIN (port-sugar.h) looks for the index as many
+    characters into the message as the NAME has in front of its '#', so the child object is taken
+    from the wrong place.  The generator does not make such names (ASSUMPTIONS); a hand-written or
+    corpus case that does is classified here."""
+    try:
+        t = parse_tree(case.split(" ")[1])
+    except Exception:
+        return None
+    if failure and failure.split(":")[0] in ("spurious-callback", "missing-callback") and any(
+            sub is not None and alt_before_hash(name) for tb in walk(t) for name, sub in tb.ports):
+        return "index-behind-alternatives"
     return None
 
 def nontrivial(case, impl):
@@ -323,15 +361,49 @@ def nontrivial(case, impl):
 # ---- generator -------------------------------------------------------------------
 TYSPECS = [b"", b"", b"", b":i", b"::i", b":i:f", b":ii", b":", b":s:i", b":if:i", b":ii:f", b":i:ii"]
 
-def component(rng, allow_hash):
+def alt_group(rng):
+    """{a,b,..}: 2..3 non-empty alternatives of letters, none a prefix of another, no '/', none
+    starting with a digit (C05's side conditions alts_prefix_free / enum_delimited)"""
+    if rng.random() < 0.12:
+        return rng.choice([b"{on,off}", b"{ab,cd}", b"{q,r}", b"{a,b,c}"])
+    alts = []
+    want = rng.choice([2, 2, 3])
+    while len(alts) < want:
+        a = bytes(rng.choice(b"abcq") for _ in range(rng.choice([1, 1, 2, 2, 3])))
+        if all(not a.startswith(b) and not b.startswith(a) for b in alts):
+            alts.append(a)
+    return b"{" + b",".join(alts) + b"}"
+
+def with_alts(rng, base):
+    """an alternative group at the start, in the middle, at the end of the component / the whole component"""
+    g = alt_group(rng)
+    r = rng.random()
+    if r < 0.3:
+        return g + base, "start"
+    if r < 0.45:
+        return g, "whole"
+    if r < 0.7 and len(base) >= 2:
+        return base[:1] + g + base[1:], "middle"
+    return base + g, "end"
+
+def component(rng, allow_hash, alts=False):
     c = bytes(rng.choice(b"abck") for _ in range(rng.choice([1, 1, 2])))
+    if alts and rng.random() < 0.4:
+        c = with_alts(rng, c)[0]
     if allow_hash and rng.random() < 0.5:
         c += b"#" + str(rng.choice([1, 2, 3, 4, 10])).encode()
+        if alts and rng.random() < 0.3:
+            c += alt_group(rng)
     return c
+
+def alt_before_hash(name):
+    """an alternative group in front of the name's first '#': the array callbacks (rBOILS_BEGIN)
+    look for the index as many characters into the message as the NAME has in front of its '#'"""
+    return b"#" in name and b"{" in name.split(b"#")[0]
 
 HIGH = b"\x7f\x80\xe9\xff"      # 0x7f: one past the 127-entry letter table of the pinned code; >= 0x80: negative as a plain char
 
-def gen_names(rng, n, allow_hash, allow_sub, friendly=False, multi=False, high=False):
+def gen_names(rng, n, allow_hash, allow_sub, friendly=False, multi=False, high=False, alts=False):
     names, seen = [], set()
     keys = set()
     tries = 0
@@ -342,7 +414,7 @@ def gen_names(rng, n, allow_hash, allow_sub, friendly=False, multi=False, high=F
         if rng.random() < 0.15:
             base += bytes([rng.choice(b"012")])
         if names and rng.random() < 0.25:                  # anagram / prefix / extension of an earlier one
-            b0 = rng.choice(names).split(b":")[0].split(b"#")[0].split(b"/")[0]
+            b0 = re.sub(rb"\{[^}]*\}", b"", rng.choice(names).split(b":")[0]).split(b"#")[0].split(b"/")[0]
             if b0:
                 r = rng.random()
                 if r < 0.4:
@@ -352,14 +424,20 @@ def gen_names(rng, n, allow_hash, allow_sub, friendly=False, multi=False, high=F
                 else:
                     base = b0[:max(1, len(b0) - 1)]
         name = base
+        if alts and rng.random() < 0.5:                    # {ab,cd}x  p{q,r}x  p{q,r}  {on,off}
+            name = with_alts(rng, base)[0]
         if allow_hash and rng.random() < 0.35:
             if P5.isdig(name[-1]):
                 name += b"x"
             name += b"#" + str(rng.choice([1, 2, 3, 4, 10, 16])).encode()
+            if alts and rng.random() < 0.5:                # a#2{x,y}: the alternatives do not start with a digit
+                name += alt_group(rng)
         if multi and rng.random() < 0.4:                   # a name of several address components: a#2/b#3/ x/y/ a#2/k#2:i u/v/w
             for _ in range(rng.choice([1, 1, 1, 2])):
-                name += b"/" + component(rng, allow_hash)
+                name += b"/" + component(rng, allow_hash, alts)
         sub = allow_sub and rng.random() < (0.45 if b"/" in name else 0.3)
+        if sub and alt_before_hash(name):                  # see ASSUMPTIONS: such a name is generated as a leaf only
+            sub = False
         if sub:
             name += b"/"
         else:
@@ -376,7 +454,7 @@ def gen_names(rng, n, allow_hash, allow_sub, friendly=False, multi=False, high=F
             while j < len(tail) and P5.isdig(tail[j]):
                 j += 1
             twin = head + str(rng.randrange(int(tail[:j]) + 1)).encode() + tail[j:]
-            if twin not in seen:
+            if twin not in seen and not (twin.endswith(b"/") and alt_before_hash(twin)):    # a#2/b{c,d}#3/ -> a1/b{c,d}#3/
                 seen.add(twin); names.append(twin)
         if not friendly and not sub and b":" in name and rng.random() < 0.2 and len(names) < n:   # same key, other types
             other = name.split(b":")[0] + rng.choice([b":f", b":T", b":ss"])
@@ -390,7 +468,8 @@ def gen_tree(rng, depth, counter, maxdepth):
     allow_hash = (not friendly) and rng.random() < 0.5
     multi = rng.random() < (0.2 if friendly else 0.35)   # a '#'-free table with such a name is not hashed either
     high = rng.random() < 0.06              # port names with bytes >= 0x7f (refreshMagic wrote outside the letter table)
-    names = gen_names(rng, n, allow_hash, depth + 1 < maxdepth, friendly, multi, high)
+    alts = rng.random() < 0.3               # names with alternative groups; without '#' / inner '/' the pinned code hashed such a table
+    names = gen_names(rng, n, allow_hash, depth + 1 < maxdepth, friendly, multi, high, alts)
     if not friendly and rng.random() < 0.08:
         names.insert(rng.randrange(len(names) + 1), rng.choice([b"a/b", b"b/a", b"ab/c", b"a/b:i"]))
     tid = counter[0]; counter[0] += 1
@@ -423,6 +502,23 @@ def spell(rng, name, dist=None):
     for k, v in ast[0]:
         if k == "L":
             out += v
+        elif k == "A":
+            r = rng.random()
+            a = rng.choice(v)
+            if r < 0.86:
+                out += a                                   # one of the alternatives
+                kk = "alternative-spelled"
+            elif r < 0.91:
+                out += b"{" + b",".join(v) + b"}"          # the group's own text is no spelling of it
+                kk = "alternative-near-miss:the-group's-text"
+            elif r < 0.96:
+                out += a[:-1] if rng.random() < 0.5 else a + bytes([rng.choice(b"abq")])
+                kk = "alternative-near-miss:shortened/extended"
+            else:
+                out += b",".join(v[:2])
+                kk = "alternative-near-miss:two-alternatives"
+            if dist is not None:
+                dist[kk] = dist.get(kk, 0) + 1
         else:
             n = int(v)
             x = rng.choice([0, n - 1, n - 1, n, n + 1, rng.randint(0, max(0, n - 1))])
@@ -559,6 +655,15 @@ def gen(rng, tier, dist):
         trees.append(Tab(0, False, [(n, None) for n in names]))
     for names in ([b"ab", b"cd", b"ef"], [b"a#2", b"cd"], [b"a:i", b"b"]):     # default handler: hashed / unhashed table
         trees.append(Tab(0, True, [(n, None) for n in names]))
+    # names with alternative groups: as sub-tree ({on,off}/), combined with '#N', in a table without
+    # '#' and without inner '/' (the only kind the pinned generate_minimal_hash hashed)
+    def leaves(names, tid, dflt=False):
+        return Tab(tid, dflt, [(n, None) for n in names])
+    trees.append(Tab(0, False, [(b"{on,off}/", leaves([b"x", b"y:i", b"{a,b}z"], 1)), (b"p{q,r}#2:i", None), (b"ab", None)]))
+    trees.append(leaves([b"{ab,cd}x::i", b"ef", b"gh"], 0))
+    trees.append(leaves([b"{ab,cd}x", b"p{q,r}", b"a{b,c}d", b"k"], 0, True))
+    trees.append(Tab(0, False, [(b"{on,off}/", leaves([b"x", b"y"], 1)), (b"zz/", leaves([b"{x,y}", b"w"], 2)), (b"v", None)]))
+    trees.append(Tab(0, False, [(b"a#2{x,y}/", leaves([b"u{v,w}#3", b"k"], 1)), (b"a#2/{x,y}b/", leaves([b"c"], 2))]))
     got = fetch_tables(trees, lambda s: None)
     dist["tables-from-library"] = bool(got)
     out = []
@@ -574,8 +679,23 @@ def gen(rng, tier, dist):
             if any(c >= 0x7f for nm, _ in tb.ports for c in nm):
                 dist[k + "-with-name-bytes>=0x7f"] = dist.get(k + "-with-name-bytes>=0x7f", 0) + 1
             lit_multi_sub = False
+            if any(b"{" in nm for nm, _ in tb.ports):
+                plain = not any(b"#" in nm or b"/" in nm.split(b":")[0].rstrip(b"/") for nm, _ in tb.ports)
+                kk = "table-with-alternative-names-" + ("and-no-#-no-inner-/:" + k[6:] if plain else "and-#-or-inner-/")
+                dist[kk] = dist.get(kk, 0) + 1
             for i, (name, sub) in enumerate(tb.ports):
                 key = name.split(b":")[0]
+                if b"{" in key:
+                    segs = parse_name(name)[0]
+                    ia = [j for j, (sk, _) in enumerate(segs) if sk == "A"]
+                    where = set()
+                    for j in ia:
+                        first = j == 0 or (segs[j - 1][0] == "L" and segs[j - 1][1].endswith(b"/"))
+                        last = j == len(segs) - 1 or (segs[j + 1][0] == "L" and segs[j + 1][1].startswith(b"/"))
+                        where.add("whole" if first and last else "start" if first else "end" if last else "middle")
+                    for w in where:
+                        kk = "port-alternatives-%s-of-component-%s%s" % (w, "subtree" if sub else "leaf", "-with-#N" if b"#" in key else "")
+                        dist[kk] = dist.get(kk, 0) + 1
                 if b"/" in key.rstrip(b"/"):
                     kk = "port-multi-component-%s-%s" % ("enumerated" if b"#" in key else "literal", "subtree" if sub else "leaf")
                     dist[kk] = dist.get(kk, 0) + 1
@@ -604,6 +724,11 @@ def gen(rng, tier, dist):
             sq, fr = expected(t, addr, ty)
             if fr:       # the address reaches such a port: whether it runs has NO VERDICT in the Spec oracle
                 dist["no-verdict:address-reaches-a-port-whose-alternative-is-properly-extended"] = dist.get("no-verdict:address-reaches-a-port-whose-alternative-is-properly-extended", 0) + 1
+            na = sum(1 for e in sq if e[0] == "E" and b"{" in names_of[e[1]].ports[e[2]][0])
+            if na:
+                kk = "address-invokes-a-port-with-alternatives" + ("-opening-the-name" if any(
+                    e[0] == "E" and names_of[e[1]].ports[e[2]][0][:1] == b"{" for e in sq) else "")
+                dist[kk] = dist.get(kk, 0) + 1
             nd = sum(1 for e in sq if e[0] == "D")
             if nd and not fr:
                 hashed = any(e[0] == "D" and names_of[e[1]].pos not in ("-", "?") for e in sq)
@@ -637,8 +762,12 @@ LEVEL_TEXT = ("Proved per table of Ports::dispatch, for ANY callbacks, any numbe
               "documented form with ANY number of address components (a#2/b#3/, x/y/, a#2/k#2:i) every callback's loc is a "
               "prefix of the full address and a leaf's loc is the full address (C04_loc_full_address), the table below a "
               "sub-tree port receives exactly what follows the matched name (C04_snip_strips_matched_name), the index handed "
-              "down is the one spelled at the '#' (C04_index_at_hash).")
+              "down is the one spelled at the '#' (C04_index_at_hash). Names with alternatives {a,b,..}: the model's matcher is C05's "
+              "match_path, so every tree theorem covers them; C04_loc_full_address and C04_snip_strips_matched_name hold for alternatives "
+              "without '/' and ':' (alts_plain); the pinned code hashed { {ab,cd}x, ef, gh } and put the name's text into loc "
+              "(C04_alternatives_refuted, two fix: commits, C04_alternatives_repaired; example C04_alternatives_nonvacuous: "
+              "{on,off}/ and p{q,r}#2:i).")
 LEVEL_NOTE = ("Trusted: Coq kernel, extraction, OCaml driver, harness (run-time built Ports, re-dispatching callbacks), the hook "
               "Ports::verif_tables, generators, the Python Spec oracle. The perfect-hash search is not modelled: its output "
               "is an input. Strategy independence is stated for literal single-component names (what the library hashes); "
-              "tables with '#' names take the linear scan in both runs.")
+              "tables with '#' or '{' names take the linear scan in both runs. C04_index_at_hash is stated for a literal prefix in front of the '#'.")
